@@ -8,7 +8,10 @@ Decoded Python representation (level-preserving):
 """
 import math
 import struct
+import sys
 from fractions import Fraction
+
+sys.set_int_max_str_digits(0)
 
 
 def f2hex(x):
@@ -146,7 +149,7 @@ def lit_float(x):
     if x == math.inf:
         return "(1.0/0.0)"
     if x == -math.inf:
-        return "(-1.0/0.0)"
+        return "(-(1.0/0.0))"
     r = repr(abs(x))
     if "e" in r or "E" in r:
         # noulith lexes 1e300 as float already
